@@ -53,6 +53,7 @@ def main():
     ap.add_argument("--list", action="store_true")
     ap.add_argument("--jobs", type=int, default=int(os.environ.get("VERIF_JOBS", "16")))
     ap.add_argument("--no-evidence", action="store_true")
+    ap.add_argument("--harness-timeout", type=int, default=0)
     args = ap.parse_args()
     seed = int(os.environ.get("VERIF_SEED", "0") or 0)   # no random choices are made anywhere; recorded only
 
@@ -105,7 +106,7 @@ def main():
                     k_units.append(o.unit)
             try:
                 extraction += kanirun.prepare(scratch, k_units)
-                ht = max(int(o.extra.get("budget", 0) or 0) for o in k_obls) or (600 if args.tier == "quick" else 3600)
+                ht = args.harness_timeout or max(int(o.extra.get("budget", 0) or 0) for o in k_obls) or (600 if args.tier == "quick" else 3600)
                 kres, kcmd, kout = kanirun.run_harnesses(scratch, k_obls, jobs=args.jobs, harness_timeout=ht)
                 cmds.append(kcmd)
                 results.update(kres)
